@@ -58,7 +58,7 @@ fn wire_case(srv: &Srv, n: u8, write: bool, with_opts: bool) -> Vec<(String, Str
             // the OACK is sent once
             let got = collect_copies(&mut c, 1);
             if !expect_same(&mut viol, &got, 1, "the OACK", &|p| matches!(p, RPacket::Oack(_))) {
-                c.to_peer(&rc::error(0, "abort"));
+                c.to_peer_guarded(&rc::error(0, "abort"));
                 quiesce();
                 return viol;
             }
@@ -68,7 +68,7 @@ fn wire_case(srv: &Srv, n: u8, write: bool, with_opts: bool) -> Vec<(String, Str
         for k in 1..=3u16 {
             let got = collect_copies(&mut c, n1);
             if !expect_same(&mut viol, &got, n1, &format!("DATA({k})"), &|p| matches!(p, RPacket::Data { block, .. } if *block == k)) {
-                c.to_peer(&rc::error(0, "abort"));
+                c.to_peer_guarded(&rc::error(0, "abort"));
                 quiesce();
                 return viol;
             }
@@ -84,7 +84,7 @@ fn wire_case(srv: &Srv, n: u8, write: bool, with_opts: bool) -> Vec<(String, Str
         let got = collect_copies(&mut c, 1);
         let first_ok = if with_opts { expect_same(&mut viol, &got, 1, "the OACK", &|p| matches!(p, RPacket::Oack(_))) } else { expect_same(&mut viol, &got, 1, "ACK(0)", &|p| matches!(p, RPacket::Ack(0))) };
         if !first_ok {
-            c.to_peer(&rc::error(0, "abort"));
+            c.to_peer_guarded(&rc::error(0, "abort"));
             quiesce();
             return viol;
         }
@@ -94,7 +94,7 @@ fn wire_case(srv: &Srv, n: u8, write: bool, with_opts: bool) -> Vec<(String, Str
             c.to_peer(&rc::data(k, &body[a..b]));
             let got = collect_copies(&mut c, n1);
             if !expect_same(&mut viol, &got, n1, &format!("ACK({k})"), &|p| matches!(p, RPacket::Ack(x) if *x == k)) {
-                c.to_peer(&rc::error(0, "abort"));
+                c.to_peer_guarded(&rc::error(0, "abort"));
                 stored_ok = false;
                 break;
             }
